@@ -13,12 +13,7 @@ META = {
                   "C15_set_params_refill_eq_spec (the following refill is the specified block for that key, stream id and "
                   "counter, any number of double rounds), C15_stream64_eq_iff(_seek), C15_stream32_eq_iff(_seek) (true "
                   "exactly when key and non-counter words agree), C15_set_param_ok and concrete examples (non-vacuity).",
-    "level_note": "Trusted: Coq kernel+VM; hand-written model Model/ChaChaGuts.v tied to guts.rs on generated cases; "
-                  "harness. Parameters >= 2 are outside the property (precondition p < 2): in the Rust the index is (param << 1) on "
-                  "u32, so 2^31 and 2^31+1 alias parameters 0 and 1 and every other value indexes out of bounds (panic); the model "
-                  "returns None for all of them, C15_param_index_agrees relates the exact index computation to the model on the "
-                  "parameters of the property. The history theorems (C15_history_*) start from ChaCha::new with an 8- or 12-byte "
-                  "nonce, not from XChaCha states. No axioms.",
+    "level_note": "Trusted: Coq kernel+VM; hand-written model Model/ChaChaGuts.v tied to guts.rs on generated cases; harness. Parameters >= 2 are outside the property (precondition p < 2): in the Rust the index is (param << 1) on u32, so 2^31 and 2^31+1 alias parameters 0 and 1 and every other value indexes out of bounds (panic); the exact index computation is modelled by the _u32 functions: C15_param_index_agrees (p < 2) and the C15_param_u32_* theorems (2^31 and 2^31+1 behave as 0 and 1, every other p in [2, 2^32) is the panic outcome; defined iff p is one of the four). The history theorems (C15_history_*) start from ChaCha::new with an 8- or 12-byte nonce, not from XChaCha states. No axioms.",
     "rule": 'cases = (key, 8- or 12-byte nonce, 3..9 operations) from seeded xoshiro; nonces: byte-index pattern, a '
             'single non-zero word in each position, all ones, all zero, walking one (first 16 cases, both lengths), then '
             'walking one 1/8 / random; the case carries the NONCE and the model builds the initial state itself '
